@@ -275,15 +275,18 @@ func scan(r row, res *Result, input []byte, t atype) error {
 			r[t.pos] = input[:32]
 		}
 	case 'd':
-		length := int(bint.Decode(input[:32]))
+		if len(input) < 32 {
+			return errors.New("EOF")
+		}
+		length := bint.Decode(input[:32])
 		if length == 0 {
 			return nil
 		}
-		if len(input) < 32+length {
+		if length > uint64(len(input)-32) {
 			return errors.New("EOF")
 		}
 		if t.sel {
-			r[t.pos] = input[32 : 32+length]
+			r[t.pos] = input[32 : 32+int(length)]
 		}
 	case 'a':
 		if !t.hasSelect() {
@@ -314,11 +317,14 @@ func scan(r row, res *Result, input []byte, t atype) error {
 				if len(input) < pos+32 {
 					return errors.New("EOF")
 				}
-				offset := int(bint.Decode(input[pos : pos+32]))
-				if len(input) < start+offset {
+				offset := bint.Decode(input[pos : pos+32])
+				if offset > uint64(len(input)) {
 					return errors.New("EOF")
 				}
-				err := scan(r, res, input[start+offset:], *t.elem)
+				if len(input) < start+int(offset) {
+					return errors.New("EOF")
+				}
+				err := scan(r, res, input[start+int(offset):], *t.elem)
 				if err != nil {
 					return errors.New("EOF")
 				}
@@ -346,11 +352,11 @@ func scan(r row, res *Result, input []byte, t atype) error {
 				if len(input) < pos+32 {
 					return errors.New("EOF")
 				}
-				offset := int(bint.Decode(input[pos : pos+32]))
-				if len(input) < offset {
+				offset := bint.Decode(input[pos : pos+32])
+				if offset > uint64(len(input)) {
 					return errors.New("EOF")
 				}
-				err := scan(r, res, input[offset:], f)
+				err := scan(r, res, input[int(offset):], f)
 				if err != nil {
 					return errors.New("EOF")
 				}
